@@ -83,6 +83,28 @@ func SigmaFuncFilters() []Step {
 	}
 }
 
+// ParenFilters: filters with parenthesised sub-queries that begin with a literal, a negation,
+// a '$' operand or another parenthesis (C18: the blank after '(' and after '!').
+func ParenFilters() []Step {
+	a, b := Name("a"), Name("b")
+	firsts := []*Query{
+		Cmp("<", LitNum(1), OpP(at(b))), Cmp("==", LitStr("a"), OpP(at(a))), NotExists(at(a)), Exists(at(a)),
+		Cmp("==", OpP(rt(b)), OpP(at(a))), Cmp("==", LitNum(1), LitNum(1)), Regex(at(a), "a"),
+	}
+	var out []Step
+	for _, x := range firsts {
+		out = append(out,
+			Filter(Paren(x)),
+			Filter(Paren(Paren(x))),
+			Filter(And(Exists(at(b)), Paren(Or(x, Exists(at(a)))))),
+			Filter(Or(Paren(And(x, Exists(at(b)))), NotExists(at(b)))),
+			Filter(Exists(at(a, Filter(Paren(x))))),
+		)
+	}
+	out = append(out, Filter(NotExists(at(a, Filter(NotExists(at(b)))))))
+	return out
+}
+
 // SigmaBoundary are subscripts with integer-boundary magnitudes (C03).
 func SigmaBoundary() []Step {
 	const maxI, minI = int64(^uint64(0) >> 1), -int64(^uint64(0)>>1) - 1
